@@ -48,6 +48,13 @@ def register(E):
     def nd_range(E, args):
         lo = E.conc_int(args[0], 64, True)
         hi = E.conc_int(args[1], 64, True)
+        if E.concrete_vector is not None:
+            i = len(E.nondets)
+            x = E.concrete_vector[i] if i < len(E.concrete_vector) else lo
+            E.nondets.append(x)
+            if x < lo or x > hi:
+                raise PathAbort('range')
+            return x
         k = E.choose(hi - lo + 1)
         E.nondets.append(lo + k)
         return lo + k
@@ -143,6 +150,7 @@ def register(E):
     I['@verifPanics'] = v_panics
 
     I['@verifPatchClock'] = lambda E, a: (lambda E2, a2: None)
+    I['@verifClockReadings'] = lambda E, a: E.clock_count
     I['@verifClockLast'] = lambda E, a: E.clock_last if E.clock_last is not None else 0
 
     def v_stop(E, args):
@@ -787,22 +795,138 @@ def register(E):
         if E.clock_last is not None:
             E.add(z3.UGE(v, E.clock_last))
         E.clock_last = v
+        E.clock_count += 1
         return v
     if opt.get('clock_stub', True):
         I['time.Since'] = lambda E, a: time_since_ns(E)
 
+    # ---------------------------------------------------------------- context
+    CTX = '$ctx'
+
+    def ctx_background(E, args):
+        return Iface(CTX, E.new_obj([None, None]))  # [done chan, parent]
+    I['context.Background'] = ctx_background
+    I['context.TODO'] = ctx_background
+
+    def ctx_with_cancel(E, args):
+        parent = args[0]
+        done = ChanObj(0, E.epoch)
+        o = E.new_obj([done, parent])
+        # a cancelled parent cancels the child
+        if parent is not None and parent.v.v[0] is not None and parent.v.v[0].closed:
+            done.closed = True
+        kids = E.ctx_children.setdefault(id(parent.v) if parent is not None else 0, [])
+        kids.append(o)
+
+        def cancel(E2, a2):
+            stack = [o]
+            while stack:
+                c = stack.pop()
+                d = c.v[0]
+                if d is not None and not d.closed:
+                    E2.chan_touch(d)
+                    d.closed = True
+                stack.extend(E2.ctx_children.get(id(c), []))
+            return None
+        return (Iface(CTX, o), cancel)
+    I['context.WithCancel'] = ctx_with_cancel
+    I['context.WithTimeout'] = lambda E, a: ctx_with_cancel(E, a[:1])
+    I['context.WithDeadline'] = lambda E, a: ctx_with_cancel(E, a[:1])
+
+    def ctx_invoke(E, recv, method, args):
+        o = recv.v
+        if method == 'Done':
+            return o.v[0]
+        if method == 'Err':
+            d = o.v[0]
+            if d is not None and d.closed:
+                return Iface(OPQ, OpaqueErr('context canceled'))
+            return None
+        raise Unsupported('context method ' + method)
+    Engine.special_invoke[CTX] = ctx_invoke
+    Engine.special_methods[CTX] = ('Done', 'Err', 'Deadline', 'Value')
+
+    # ---------------------------------------------------------------- timers
+    def time_after(E, args):
+        """time.After(d): the timer is treated as having fired (the channel is ready); d is logged"""
+        E.timer_log.append(args[0])
+        ch = ChanObj(1, E.epoch)
+        ch.items.append(E.zero('time.Time'))
+        return ch
+    I['time.After'] = time_after
+
+    def time_newticker(E, args):
+        E.timer_log.append(args[0])
+        t = E.types['time.Ticker'].u
+        vals = [E.zero(f['type']) for f in t.fields]
+        ch = ChanObj(1, E.epoch)
+        for k in range(E.opt.get('ticks', 1)):
+            ch.items.append(E.zero('time.Time'))
+        ch.cap = max(1, len(ch.items))
+        for i, f in enumerate(t.fields):
+            if f['name'] == 'C':
+                vals[i] = ch
+        return Ptr(E.new_obj(thaw(tuple(vals))), ())
+    I['time.NewTicker'] = time_newticker
+    I['(*time.Ticker).Stop'] = lambda E, a: None
+    I['(*time.Timer).Stop'] = lambda E, a: True
+
+    def v_timerlog_len(E, args):
+        return len(E.timer_log)
+    I['@verifTimerCount'] = v_timerlog_len
+
+    def v_timerlog_get(E, args):
+        return E.timer_log[E.conc_int(args[0], 64, True)]
+    I['@verifTimerDuration'] = v_timerlog_get
+    I['@verifPatchTimers'] = lambda E, a: (lambda E2, a2: None)
+
+    def v_chanpush(E, args):
+        """verifChanPush(ch, item): place an item in a channel regardless of its capacity (a sender is waiting)"""
+        ch = args[0]
+        E.chan_touch(ch)
+        ch.items.append(args[1])
+    I['@verifChanPush'] = v_chanpush
+
+    def v_chanonsend(E, args):
+        ch = args[0]
+        ch.sink = True
+        E.chan_hooks[id(ch)] = args[1]
+    I['@verifChanOnSend'] = v_chanonsend
+
     def time_now(E, args):
         """time.Now(): wall clock with arbitrary non-decreasing unix nanoseconds; Time{wall: 0, ext: sec since year 1, loc: Local}"""
         ns = time_since_ns(E)
-        E.path_notes.append(('now', ns))
-        # represent as Time with ext = seconds since year 1 and wall nanoseconds (no monotonic)
-        sec = z3.UDiv(ns, BV(1000000000, 64))
-        nsec = z3.URem(ns, BV(1000000000, 64))
-        # unix epoch 2015-01-01 + sec ; unixToInternal = 62135596800
-        ext = sec + BV(1420070400 + 62135596800, 64)
-        return (nsec, ext, None)
+        # exactly what verifClockRef.Add(time.Duration(ns)) computes: the real Time.Add on 2015-01-01T00:00:00Z
+        # (wall = 0: no monotonic reading; ext = seconds since year 1; loc = nil: UTC)
+        ref = (0, 1420070400 + 62135596800, None)
+        r = ClockTime(E.call(E.prog.funcs['(time.Time).Add'], [ref, ns], raw=True))
+        r.ns = ns
+        return r
     if opt.get('now_stub'):
         I['time.Now'] = time_now
+
+        def v_clock_at(E, args):
+            ref = (0, 1420070400 + 62135596800, None)
+            r = ClockTime(E.call(E.prog.funcs['(time.Time).Add'], [ref, args[0]], raw=True))
+            r.ns = args[0]
+            return r
+        I['@verifClockAt'] = v_clock_at
+
+        # documented contracts of Sub / Equal / Add on two instants both produced by the clock stub (differences fit
+        # a Duration by the clock contract, so Sub never saturates); any other argument runs the real code
+        def t_sub(E, args):
+            a, b = args
+            if type(a) is ClockTime and type(b) is ClockTime:
+                return E.arith('-', a.ns, b.ns, 64, True)
+            return E.call(E.prog.funcs['(time.Time).Sub'], args, raw=True)
+        I['(time.Time).Sub'] = t_sub
+
+        def t_equal(E, args):
+            a, b = args
+            if type(a) is ClockTime and type(b) is ClockTime:
+                return E.val_eq(a.ns, b.ns)
+            return E.call(E.prog.funcs['(time.Time).Equal'], args, raw=True)
+        I['(time.Time).Equal'] = t_equal
 
 
 _ERRIFACE = None
